@@ -85,7 +85,30 @@ def impl(case):
     x = xs(case)
     if op == "test":
         p, h = nm.test(x)
-        return {"st": "ok", "p": float(p), "hist": flo(h)}
+        res = {"st": "ok", "p": float(p), "hist": flo(h)}
+        # the same test object used again, as an audit does round after round: first on a decoy (the same draws in
+        # reverse order: same length, same total), then twice on ONE float array holding the sample.  Every call must
+        # return what a fresh object returns on that sample, and must leave the caller's array as it was.
+        nm2 = make_nm(case["init"])
+        xa = np.array([float(v) for v in x], dtype=float)
+        keep = xa.copy()
+        reuse = None
+        try:
+            if len(xa) > 1:
+                nm2.test(xa[::-1].copy())
+            for k in (1, 2):
+                p2, h2 = nm2.test(xa)
+                if not (np.array_equal(np.asarray(h2, dtype=float), np.asarray(h, dtype=float), equal_nan=True)
+                        and (float(p2) == float(p) or (math.isnan(float(p2)) and math.isnan(float(p))))):
+                    reuse = f"call {k} on a used test object returned p={float(p2)!r}, history {flo(h2)[:6]}; a fresh object returns p={float(p)!r}, history {flo(h)[:6]}"
+                    break
+                if not np.array_equal(xa, keep, equal_nan=True):
+                    reuse = f"call {k} changed the caller's sample array from {keep[:6].tolist()} to {xa[:6].tolist()}"
+                    break
+        except Exception as e:  # noqa
+            reuse = f"a used test object raised {type(e).__name__} on a sample a fresh object accepts"
+        res["reuse"] = reuse
+        return res
     if op == "estim":
         return {"st": "ok", "v": bc(nm.estim(x), len(x))}
     if op == "bet":
@@ -794,6 +817,9 @@ def oracle_c12(case, ir):
     output and compare with the reported history on the indices whose null mean is regular"""
     if not valid_for_wellformed(case) or ir.get("st") != "ok":
         return None
+    if case.get("op") == "test" and ir.get("reuse") and not any(math.isnan(v) for v in [ir["p"]] + ir["hist"]):
+        # the statistic reported for a sample is a function of that sample (and the configuration) alone
+        return {"what": "the reported statistic is not the defined function of the sample: " + ir["reuse"]}
     init = case["init"]
     test = init["test"] or "alpha_mart"
     u = F(init["u_now"] if init.get("u_now") is not None else init["u"])
